@@ -36,10 +36,13 @@ def integral(f, in_place=False, dtype=np.double):
     if f.ndim != 2:
         raise ValueError('mahotas.surf.integral: Can only handle 2D-images (i.e., greyscale images).')
     if not in_place:
-        if dtype != f.dtype:
-            f = f.astype(dtype)
+        # the kernel reads the memory as native-endian values
+        if np.dtype(dtype).newbyteorder('=') != f.dtype:
+            f = f.astype(np.dtype(dtype).newbyteorder('='))
         else:
             f = f.copy()
+    elif not f.dtype.isnative:
+        raise ValueError('mahotas.surf.integral: cannot work in place on an array in non-native byte order.')
     return _surf.integral(f)
 
 def surf(f, nr_octaves=4, nr_scales=6, initial_step_size=1, threshold=0.1, max_points=1024, descriptor_only=False):
